@@ -172,6 +172,17 @@ def run(repo):
     s += "/-- does `write_chunk_impl` use `compress` (not `compress_bug`)? -/\ndef writer_compress_plain : Bool := %s\n\n" % (
         "true" if re.search(r"\.compress\(", body) and "compress_bug" not in body else "false")
 
+    asserts = []
+    for fn in ("new", "write_chunk_impl", "write_message"):
+        body = exlib.fn_body(src, fn, 0, rel)
+        for mm in re.finditer(r"assert!\(([^;]*)\);", body):
+            cond = re.sub(r',\s*"[^"]*"\s*$', "", mm.group(1).strip())
+            asserts.append("%s: %s" % (fn, re.sub(r"\s+", " ", cond)))
+        for mm in re.finditer(r'\.expect\("([^"]*)"\)', body):
+            asserts.append("%s: expect %s" % (fn, mm.group(1)))
+    s += "/-- the assertions and `expect`s of `Writer::new`, `write_chunk_impl`, `write_message` -/\n"
+    s += "def writer_asserts : List String := [%s]\n\n" % ", ".join('"%s"' % a for a in asserts)
+
     rel = "demo/src/reader.rs"
     src = exlib.strip_rust_comments(exlib.read(repo, rel))
     body = exlib.fn_body(src, "read_chunk", 0, rel)
